@@ -280,7 +280,28 @@ pub fn gen_c19(rng: &mut Rng, _i: u64, tier: Tier) -> Script {
         2 | 3 | 4 => rng.range(600, 5000),
         _ => rng.range(0, 600),
     };
-    let vs = valid_stream(rng, zlib, target, 32768, None);
+    let mut vs = valid_stream(rng, zlib, target, 32768, None);
+    if zlib && rng.chance(1, 25) {
+        // a frame with a block boundary exactly where the running Adler-32 of the output is special (0, 1, a zero
+        // half): the checksum travels in the boundary record / the snapshot
+        let (ta, tb) = gen::adler_special(rng);
+        let pl = rng.pick(&[0usize, 30, 500]);
+        let t = gen::adler_target(rng, ta, tb, pl);
+        let mut c = miniz_oxide::deflate::core::CompressorOxide::with_params(miniz_oxide::DataFormat::Zlib, rng.pick(&[0u8, 1, 6]), miniz_oxide::deflate::core::CompressionStrategy::Default, 15);
+        let mut out: Vec<u8> = Vec::new();
+        let extra = { let n = rng.range(1, 400); rng.bytes(n) };
+        for (chunk, fl) in [(&t[..], miniz_oxide::deflate::core::TDEFLFlush::Sync), (&extra[..], miniz_oxide::deflate::core::TDEFLFlush::Finish)] {
+            let _ = miniz_oxide::deflate::core::compress_to_output(&mut c, chunk, fl, |b: &[u8]| {
+                out.extend_from_slice(b);
+                true
+            });
+        }
+        vs.plain_len = t.len() + extra.len();
+        vs.max_dist = 32768;
+        vs.cinfo = 7;
+        vs.enc_len = out.len();
+        vs.bytes = out;
+    }
     let n = vs.bytes.len();
     if rng.chance(1, 4) {
         s.faults.push(random_fault(rng, n));
